@@ -581,6 +581,14 @@ def auto_chunks(chunks, shape, limit, dtype, previous_chunks=None):
 
     largest_block = math.prod(cs if isinstance(cs, Number) else max(cs) for cs in chunks if cs != "auto")
 
+    if largest_block == 0:
+        # A fixed axis of length zero: the array holds no data, every block is
+        # empty whatever the auto axes do, so they get one block each.
+        chunks = list(chunks)
+        for i in autos:
+            chunks[i] = (shape[i],)
+        return tuple(chunks)
+
     if previous_chunks:
         # Base ideal ratio on the median chunk size of the previous chunks
         median_chunks = {a: np.median(previous_chunks[a]) for a in autos}
